@@ -146,12 +146,94 @@ def check_tx(c, tx, flags, all_idx=True, eps=None):
     c.sample({"tx": toks[:200], "flags": flags[:4], "indices": idxs[:4]})
 
 
+def check_history(c, tx, steps=6):
+    """`sighash.seq`: a HISTORY of digest calls on ONE object per entry point (audit2 C-7 / B-7). `check_tx` hands every
+    object the same lists of spent scripts / amounts throughout, so a cached `sha_amounts` / `sha_scriptpubkeys` that is
+    not re-keyed by its argument (`if self._hash_amounts is None:`) goes unnoticed there. Here the SAME Transaction /
+    PSBT / PSBTView object is asked again with other lists of the SAME length: one amount changed, one script changed,
+    both, back to the first lists, the caller's own list objects edited in place, bytearray-backed scripts whose bytes
+    are edited in place; legacy / BIP143 calls in between (they share the prevouts / sequences / outputs caches).
+    Every answer is compared with the (stateless) model and with the consensus spec."""
+    rng = c.rng
+    toks = gen.tx_tokens(tx)
+    nin = len(tx.vin)
+    if nin == 0 or nin > 8:
+        return
+    base_spks = [gen.rbytes(rng, rng.choice([22, 34, 34, 25])) for _ in range(nin)]
+    base_vals = [gen.pick_u64(rng) for _ in range(nin)]
+    # the script of calls: (kind, idx, flag, spks, values, in-place mode)
+    plan = []
+    spks, vals = list(base_spks), list(base_vals)
+    for k in range(steps):
+        what = rng.choice(["value", "value", "script", "both", "back", "same", "swap"]) if k else "first"
+        j = rng.randrange(nin)
+        if what in ("value", "both"):
+            vals = list(vals)
+            vals[j] = rng.choice([vals[j] ^ 1, vals[j] + 1 if vals[j] < 2 ** 64 - 1 else 0, gen.pick_u64(rng)])
+        if what in ("script", "both"):
+            spks = list(spks)
+            old = spks[j]
+            # same length (so that a bytearray can be edited byte by byte) or another length
+            spks[j] = (bytes([old[0] ^ 0x01]) + old[1:]) if (old and rng.random() < 0.6) else gen.rbytes(rng, rng.choice([22, 34]))
+        if what == "back":
+            spks, vals = list(base_spks), list(base_vals)
+        if what == "swap" and nin > 1:
+            vals = list(reversed(vals))
+            spks = list(reversed(spks))
+        f = rng.choice([0, 0, 1, 1, 2, 3, 0x81, 0x83])
+        idx = rng.randrange(nin)
+        mode = rng.choice(["fresh-lists", "same-lists", "same-scripts", "same-bytes"])
+        plan.append((what, idx, f, list(spks), list(vals), mode))
+    sc = gen.gen_script(rng)
+    value = gen.pick_u64(rng)
+    for name, obj in entry_points(c, tx):
+        held_scripts = held_vals = None
+        for k, (what, idx, f, spks, vals, mode) in enumerate(plan):
+            if held_scripts is None or mode == "fresh-lists" or len(held_scripts) != len(spks):
+                # half of the time the caller's scripts are backed by bytearrays it owns
+                ba = rng.random() < 0.5
+                held_scripts = [Script(bytearray(s) if ba else s) for s in spks]
+                held_vals = list(vals)
+            else:
+                # the caller keeps ITS list objects and edits them in place
+                held_vals[:] = vals
+                for j, s in enumerate(spks):
+                    cur = held_scripts[j]
+                    if mode == "same-bytes" and isinstance(cur.data, bytearray):
+                        cur.data[:] = s                      # same Script, same bytearray, other bytes
+                    elif mode == "same-scripts":
+                        cur.data = s                         # same Script object, rebound data
+                    elif bytes(cur.data) != s:
+                        held_scripts[j] = Script(s)          # same list, other element
+            t = tap_tokens(toks, idx, spks, vals, f, 0, None, None, 0xC0, None)
+            info = {"entry": name, "algo": "taproot", "hist": "sighash.seq", "step": k, "change": what, "lists": mode,
+                    "tx": toks[:5000], "idx": idx, "flag": f, "n_inputs": nin,
+                    "history": [(w, i, fl, m) for (w, i, fl, _s, _v, m) in plan[:k + 1]]}
+            c.count(("seq", name, t, k), nontrivial=k > 0)
+            c.tally("seq:%s" % what)
+            c.tally("seq-lists:%s" % mode)
+            r = call(lambda: obj.sighash_taproot(idx, held_scripts, held_vals, f))
+            c.expect("sighash.taproot " + t, r, info, proven=True)
+            c.expect("sighash.taproot.spec " + t, r, dict(info, oracle="spec"), proven=True)
+            if [bytes(x.data) for x in held_scripts] != spks or held_vals != vals:
+                c.fail("sighash_taproot changed the caller's lists", dict(info, op="sighash.seq.args"))
+            if k % 3 == 2:
+                # the other algorithms in between, on the same object
+                r = call(lambda: obj.sighash_segwit(idx, Script(sc), value, 1))
+                c.expect("sighash.segwit.spec %s %d %s %d 1" % (toks, idx, hx(sc), value), r,
+                         dict(info, algo="segwit", oracle="spec"), proven=True)
+                r = call(lambda: obj.sighash_legacy(idx, Script(sc), 1))
+                c.expect("sighash.legacy.spec %s %d %s 1" % (toks, idx, hx(sc)), r,
+                         dict(info, algo="legacy", oracle="spec"), proven=True)
+
+
 def explore(c, n, big):
     for k in range(n):
         tx = unsigned(c.rng, big=big and k % 40 == 7)
         small = len(tx.vin) <= 8
         flags = VALID + c.rng.sample(INVALID, 2) if small else [c.rng.choice(VALID), c.rng.choice(VALID)]
         check_tx(c, tx, flags)
+        check_history(c, tx)
         if k % 3 == 0:
             # the transaction-object entry point on a (partially) signed transaction: scriptSigs and witnesses of the
             # other inputs are present and must not enter the digest (legacy blanks them; BIP143/341 never hash them)
@@ -403,7 +485,11 @@ def run(tier, seed):
               ">1 input or flag not in {DEFAULT, ALL} or taproot. Entry points: seeded PSBTs (v0 / v2 / v2 without tx version) "
               "whose inputs are p2pkh, bare, p2sh, p2wpkh, p2sh-p2wpkh, p2wsh, p2sh-p2wsh, p2tr (with non-witness and / or "
               "witness utxo), plus PSBTs with arbitrary field combinations; PSBT.sighash and PSBTView.sighash (stream "
-              "offsets, reader modes 0/1/2, taproot kwargs) x every input x flags")
+              "offsets, reader modes 0/1/2, taproot kwargs) x every input x flags. Histories (`sighash.seq`): per transaction "
+              "and entry point ONE object asked 6 times for the BIP341 digest with other lists of spent scripts / amounts of the "
+              "same length (one amount, one script, both, back to the first, reversed; fresh lists, the caller's lists edited "
+              "in place, Script objects rebound, bytearray-backed scripts edited byte by byte), legacy / BIP143 calls in "
+              "between; every answer vs model and consensus spec")
     c.assumptions = ["taproot: hash type 0x80 and lists of spent scripts / amounts of the wrong length have no BIP341 digest; "
                      "embit, model and spec all have to refuse (compared with the spec, proven=True)",
                      "scriptCode is an argument (OP_CODESEPARATOR / FindAndDelete are the caller's, as in embit)"]
